@@ -150,10 +150,9 @@ func (c *VirtualTable) Disconnect() error {
 	if err := toSqlite(c.common.Disconnect()); err != nil {
 		return err
 	}
-	if c.module.sc.ctxCancel != nil {
-		c.module.sc.ctxCancel()
-		c.module.sc.ctxCancel = nil
-	}
+	// The context belongs to the connection, not to this table: release it, and give the
+	// connection's other tables a live one again.
+	c.module.sc.ResetContext()
 
 	return nil
 }
